@@ -783,6 +783,10 @@ func (ev *Eval) callExpr(n *ast.CallExpr) Value {
 			return res.(*TupleV).E[i]
 		}
 		return res
+	case "ncalls":
+		s, _ := strconv.Unquote(exprString(n.Args[0]))
+		key := x.prog.cs.expand(s)
+		return &Prim{T: IntLit(int64(ev.st.callCount(ev.fr.id, key)))}
 	case "funcid":
 		// funcid("pkg.(*T).name$1") : identity of a function / closure
 		s, _ := strconv.Unquote(exprString(n.Args[0]))
